@@ -26,6 +26,15 @@ def run(ctx):
             jobs.append((exe, ["key", alg, depth if main else 3], be))
             jobs.append((lpc, ["siv", alg, (32 if ctx.thorough else 18) if main else 10], be))
             jobs.append((lpc, ["isap", alg, (20 if ctx.thorough else 10) if main else 6], be))
+    # size-optimised library builds (the sources have branches of their own under __OPTIMIZE_SIZE__)
+    for be, cc, opt in ([("asm", "gcc", "-Os"), ("c32", "clang", "-Oz")] + ([("c64", "gcc", "-Os"), ("dxor", "gcc", "-Os"), ("generic", "clang", "-Oz")] if ctx.thorough else [])):
+        lib = build.build_lib(be, cc=cc, opt=opt)
+        ctx.configs.append(lib["desc"])
+        exe = build.build_prog("c06", ["harness/c06.c", "harness/cpp_shim.cpp", "harness/sysrand.c", "ref/ref.c"], lib, opt="-O2")
+        for alg in range(3):
+            jobs.append((exe, ["enc", "siv", alg, 3, 24], "%s-%s%s" % (be, cc, opt)))
+            jobs.append((exe, ["enc", "isap", alg, 3, 17], "%s-%s%s" % (be, cc, opt)))
+            jobs.append((exe, ["key", alg, 3], "%s-%s%s" % (be, cc, opt)))
     jobs.sort(key=lambda j: 0 if j[1][1] == 'isap' else 1)
     common.parallel(lambda j: common.run_harness(ctx, j[0], j[1], label=j[2]), jobs)
     common.align_jobs(ctx, jobs, lambda j: j[2] in ("asm", "c64") and j[1][0] == "enc" and j[1][3] == 3)
